@@ -18,3 +18,9 @@ Proof. vm_compute. reflexivity. Qed.
 
 Lemma racy_reported_is : racy_reported = [].
 Proof. vm_compute. reflexivity. Qed.
+
+Lemma unsync_cells_not_used_per_stream : unsync_cells_not_used_per_stream_b = true.
+Proof. vm_compute. reflexivity. Qed.
+
+Lemma unsync_use_rows_current : unsync_use_rows_current_b = true.
+Proof. vm_compute. reflexivity. Qed.
